@@ -245,8 +245,27 @@ func linetraceMain(args []string) int {
 		default:
 			gf = genNd(rng, g)
 		}
-		long := fi%25 >= 22
-		if long && gf.kind == "nd" {
+		if fi == 7 || fi == 8 {
+			// a line longer than any line-scanner buffer, then (fi == 7) a damaged line
+			var b strings.Builder
+			var lines []lineInfo
+			add := func(ln string, val, objarr bool) {
+				b.WriteString(ln + "\n")
+				lines = append(lines, lineInfo{N: 1, End: b.Len(), Term: true, Val: val, ObjArr: objarr, Blank: ln == ""})
+			}
+			add(`{"a":1}`, true, true)
+			add(`[1,2]`, true, true)
+			add(`{"k":"`+strings.Repeat("x", 70000)+`"}`, true, true)
+			if fi == 7 {
+				add(`{"c":`, false, false)
+			}
+			add(`{"d":4}`, true, true)
+			gf = genFile{kind: "nd", bytes: []byte(b.String()), lines: lines}
+		}
+		long := fi%25 >= 22 || fi == 7 || fi == 8
+		if fi == 7 || fi == 8 {
+			// keep the hand-built file
+		} else if long && gf.kind == "nd" {
 			gf = genNdN(rng, g, 90+rng.Intn(200))
 		} else if long {
 			gf = genTableN(rng, gf.kind, 90+rng.Intn(90))
